@@ -189,6 +189,12 @@ def realize(x, t):
                 if f not in ("nodes", "adj"):
                     setattr(g, f, realize(x[f], ft))
             return g
+        if set(t.fields) == {"nodes"} and ":" in t.cls:
+            import networkx as nx
+            g = nx.Graph()
+            for k, attrs in x["nodes"].items():
+                g.add_node(k, **{f: v for f, v in realize(attrs, t.fields["nodes"].v).items()})
+            return g
         if t.cls == "restraint_list":
             k = x["kind"]
             tail = {"sphere": [x["a"]], "cylinder": [x["a"], x["b"]], "rectangle": [x["a"], x["b"], x["c"]]}[k]
@@ -497,6 +503,15 @@ def unrealize(v, t):
         return tuple(unrealize(e, s) for e, s in zip(v, t.ts))
     if n in ("TDict", "TDefaultDict", "TODict"):
         return {k: unrealize(x, t.v) for k, x in v.items()}
+    if n == "TRec" and set(t.fields) == {"nodes"} and isinstance(v, nx.Graph):
+        return {"nodes": {k: {f: (unrealize(d.get(f), ft) if f in d else None) for f, ft in t.fields["nodes"].v.fields.items()} for k, d in v.nodes(data=True)}}
+    if n == "TRec" and hasattr(v, "_fields") and hasattr(v, "_asdict"):
+        d_ = v._asdict()
+        return {f: unrealize(d_.get(f), ft) for f, ft in t.fields.items()}
+    if n == "TRec" and not isinstance(v, (dict, nx.Graph)) and hasattr(v, "__dict__"):
+        return {f: unrealize(getattr(v, f, None), ft) for f, ft in t.fields.items()}
+    if n == "TOpt":
+        return None if v is None else unrealize(v, t.t)
     if n == "TRec" and "nodes" in t.fields and "adj" in t.fields and isinstance(v, nx.Graph):
         out = {"nodes": {k: {f: (d.get(f) if f in d else None) for f in t.fields["nodes"].v.fields} for k, d in v.nodes(data=True)},
                "adj": {(a, b) for a, b in v.edges} | {(b, a) for a, b in v.edges}}
@@ -504,8 +519,10 @@ def unrealize(v, t):
             if f == "eattr":
                 out[f] = {(min(a, b), max(a, b)): dict(d) for a, b, d in v.edges(data=True)}
             elif f not in ("nodes", "adj"):
-                out[f] = getattr(v, f, None)
+                out[f] = unrealize(getattr(v, f, None), ft)
         return out
+    if n == "TRec" and isinstance(v, dict) and not ("nodes" in t.fields and "adj" in t.fields):
+        return {f: unrealize(v.get(f), ft) for f, ft in t.fields.items()}
     return v
 
 
@@ -546,13 +563,13 @@ def conformance(n=40, seed=1):
         except Exception:
             continue
         for reg in [getattr(m, x) for x in dir(m) if x.startswith("REG")]:
-            for c in reg.values():
-                if c.raises or not c.ensures:
+            for c in [c_ for vs_ in getattr(reg, "variants", {}).values() for c_ in vs_] or list(reg.values()):
+                if not (c.ensures or c.raises):
                     continue
                 if ("self" in c.params or c.exposes) and not (c.witness and c.adapt and getattr(c, "unadapt", None)):
                     continue            # methods / exposed locals need a witness generator and adapters between data and real objects
-                if c.modifies and not (c.witness and all(m.split(".")[0] in c.params for m in c.modifies)):
-                    continue            # contracts with a frame need a witness generator (ghost parameters, shaped inputs)
+                if c.modifies and not all(m.split(".")[0] in c.params for m in c.modifies):
+                    continue            # a frame on something that is not a parameter
                 if any("_" + g.lstrip("_") in str(e) for g in c.ghost_locals for _n, e in c.ensures if g not in c.exposes):
                     continue            # the postcondition mentions ghost state that the adapters cannot supply
                 cases.append((c, reg))
@@ -597,15 +614,32 @@ def conformance(n=40, seed=1):
             except Exception as e:                      # noqa: BLE001
                 if any(type(e).__name__ == x or (x == "OSError" and isinstance(e, OSError)) for x in c.raises_when):
                     continue            # an exception the contract allows (its condition is a statement about locals: not evaluated here)
-                if type(e).__name__ in ("NetworkXError", "NodeNotFound", "KeyError") and not c.module.startswith("polyply"):
+                raised_real = [(x, cond) for x, cond in c.raises if type(e).__name__ == x or (x == "OSError" and isinstance(e, OSError))]
+                if raised_real:
+                    res = None          # checked below: the contract's raise condition must hold of the inputs
+                elif type(e).__name__ in ("NetworkXError", "NodeNotFound", "KeyError") and not c.module.startswith("polyply"):
                     continue            # library precondition (e.g. source not in graph) not expressed in the assumed contract: input skipped
-                skipped[c.target] = f"real function raised {type(e).__name__}: {e}"
-                break
+                else:
+                    skipped[c.target] = f"real function raised {type(e).__name__}: {e}"
+                    break
+            else:
+                raised_real = None
             try:
                 from pyvc import ops as _ops
                 uni = list(universe) + sorted(_ops.INTERNED) + list(ghosts.get("__names__", []))
-                win = range(-1, int(ghosts.get("__window__", 8)))
-                sym_env, assign = {}, {"__universe__": {"Node": uni, "Key_Int_Int": [(a, b) for a in win for b in win]}}
+                def _maxlen(v, d=0):
+                    if d > 6:
+                        return 0
+                    if isinstance(v, dict):
+                        return max([len(v)] + [_maxlen(x, d + 1) for x in v.values()])
+                    if isinstance(v, (list, tuple, set)):
+                        return max([len(v)] + [_maxlen(x, d + 1) for x in v])
+                    if hasattr(v, "interactions") and isinstance(getattr(v, "interactions"), dict):
+                        return _maxlen(v.interactions, d + 1)
+                    return 0
+                win = range(-1, int(ghosts.get("__window__", min(40, max(8, 3 + _maxlen([args, res, list(real_args.values())]))))))
+                sym_env, assign = {}, {"__universe__": {"Node": uni, "Key_Int_Int": [(a, b) for a in win for b in win],
+                                                         "Key_Node_Node": [(a, b) for a in uni for b in uni]}}
                 assign.update(uf_interpretations(universe))
                 assign.update({"name:" + s: s for s in _ops.INTERNED})
                 assign.update({k: v for k, v in ghosts.items() if not k.startswith("__")})
@@ -638,12 +672,23 @@ def conformance(n=40, seed=1):
                         assign[term.decl().name()] = val
                 e2 = Engine(reg)
                 e2.contract = c
+                for exc, cond in c.raises:
+                    # sound and complete raise conditions: true of the inputs exactly when the real function raised that exception
+                    val = e2.spec_eval(cond, sym_env, old_env=sym_env)
+                    holds = val if isinstance(val, bool) else bool(numeval.evaluate(val, assign, window=win))
+                    want = raised_real is not None and any(x == exc for x, _c in raised_real)
+                    clauses += 1
+                    if holds != want:
+                        bad.append((c.target, f"raises {exc} exactly when its condition holds (condition {holds}, raised {want})", {k: repr(v)[:150] for k, v in args.items()}, repr(res)[:150]))
+                if raised_real is not None:
+                    ran += 1
+                    continue
                 for name, ens in c.ensures:
                     val = e2.spec_eval(ens, post_env, old_env=sym_env)
                     ok = val if isinstance(val, bool) else bool(numeval.evaluate(val, assign, window=win))
                     clauses += 1
                     if not ok:
-                        bad.append((c.target, name, {k: repr(v)[:150] for k, v in args.items()}, repr(res)[:150]))
+                        bad.append((c.target, name, {k: repr(v)[:600] for k, v in args.items()}, repr(res)[:150]))
                 ran += 1
             except (numeval.CannotEvaluate, CannotConcretise, NotImplementedError, KeyError, TypeError, AttributeError) as e:
                 skipped[c.target] = f"clauses not evaluable on concrete data: {type(e).__name__}: {e}"
